@@ -137,15 +137,18 @@ def make_cases(chk: Check) -> list[dict]:
                 add(c["ops"], backend, c.get("cap"), f"corpus/{p.name}")
 
     # bounded-exhaustive skeletons (2 names), shapes and the initial array capacity drawn from the seed
-    exh_len = 6 if thorough else 5
-    for sk in gen.enumerate_skeletons(exh_len, 2, False):
-        add(gen.assign_shapes(sk, rng), "llvm", rng.choice([None, None, "2"]), f"exhaustive<= {exh_len}/2names")
+    for sk in gen.enumerate_skeletons(5, 2, False):
+        add(gen.assign_shapes(sk, rng), "llvm", rng.choice([None, None, "2"]), "exhaustive<=5/2names")
     if thorough:
-        for sk in gen.enumerate_skeletons(5, 3, False):
-            if gen.mentions(sk, 2):
-                add(gen.assign_shapes(sk, rng), "llvm", rng.choice([None, "2"]), "exhaustive<=5/3names")
+        # length 6 over two names (381 799 skeletons) and length <= 5 over three names: seeded samples
+        six = [sk for sk in gen.enumerate_skeletons(6, 2, False) if len(sk) == 6]
+        for sk in rng.sample(six, 80000):
+            add(gen.assign_shapes(sk, rng), "llvm", rng.choice([None, "2"]), "sample-of-all-length6/2names")
+        three = [sk for sk in gen.enumerate_skeletons(5, 3, False) if gen.mentions(sk, 2)]
+        for sk in rng.sample(three, 30000):
+            add(gen.assign_shapes(sk, rng), "llvm", rng.choice([None, "2"]), "sample-of-all-length<=5/3names")
     # rich random histories: 3 names, two-input evaluations, same-name rebinding, ill-formed operations
-    for _ in range(20000 if thorough else 2500):
+    for _ in range(10000 if thorough else 2500):
         add(gen.random_history(rng, rng.randint(4, 9), 3), "llvm", rng.choice([None, "2", "1"]), "random-rich")
     # the cffi back end: C compilation costs ~1 s per distinct kernel, so few distinct kernels
     cffi_len = 4 if thorough else 3
@@ -169,7 +172,8 @@ def run(chk: Check):
     chk.rule = (
         "histories over {eval (no/one/two history inputs; output sparse 1 or 2 levels, empty sparse, dense, "
         "scalar), build, alias, structref (a name for the C structure), read, pickle round-trip, del, gc.collect}: "
-        "ALL well-formed histories up to length 5 (thorough 6) over two names up to renaming, output shapes and "
+        "ALL well-formed histories up to length 5 over two names up to renaming (thorough: + 80 000 of the 381 799 of "
+        "length 6 and 30 000 of those of length <= 5 over three names), output shapes and "
         "initial array capacity (default / 2 / 1) drawn from the seed, + random histories of length 4-9 over three names "
         "including ill-formed operations, + the cffi back end on short histories; a case is distinct by "
         "(ops, back end, capacity) and non-trivial when at least one kernel-allocated array is tracked"
@@ -196,6 +200,8 @@ def run(chk: Check):
         shutil.rmtree(WORK, ignore_errors=True)
     WORK.mkdir(parents=True, exist_ok=True)
 
+    import time
+    t0 = time.time()
     cases = make_cases(chk)
     by_id = {c["id"]: c for c in cases}
     # group into batches per (backend, cap); llvm batches of ~4000 histories, cffi one batch per cap
@@ -224,6 +230,7 @@ def run(chk: Check):
             results.update(r["results"])
             crashes.extend(r["crashes"])
 
+    t_run = time.time() - t0
     # ---- the property itself (searcher): oracle violations and crashes
     bad = []
     for cid, r in results.items():
@@ -281,6 +288,7 @@ def run(chk: Check):
             "mismatching_histories": len(mismatches),
         })
 
+    chk.extra["phase_seconds"] = {"histories_run": round(t_run, 1), "model_compare": round(time.time() - t0 - t_run, 1)}
     # ---- evidence
     for c in done:
         r = results[c["id"]]
